@@ -71,7 +71,7 @@ def dec_arg(d, p: Procedure, env):
         anchor = IC.Node(root, [(x, i) for x, i in d["anchor"]])
         return PC.lift_cursor(IC.Gap(root, anchor, IC.GapType[d["type"]]), p)
     if k == "proc":
-        for sp in env["SUBPROCS"] + [s[1] for s in env["SEEDS"]]:
+        for sp in env["SUBPROCS"] + env.get("X86", []) + [s[1] for s in env["SEEDS"]]:
             if sp.name() == d["name"]:
                 return sp
         raise KeyError(d["name"])
@@ -98,10 +98,20 @@ def short_args(args):
 # ---------------------------------------------------------------------------
 
 
+X86_POOL = ["mm256_loadu_ps", "mm256_storeu_ps", "mm256_fmadd_ps", "mm256_mul_ps", "mm256_add_ps", "mm256_setzero_ps", "avx2_reg_copy_ps", "mm256_prefix_store_ps", "mm256_prefix_load_ps", "avx2_mask_storeu_ps", "mm256_broadcast_ss_scalar", "avx2_reduce_add_wide_ps"]
+
+
 def load_env():
     import corpus.seeds as S
 
-    return {"SEEDS": S.SEEDS, "SUBPROCS": S.SUBPROCS, "CONFIGS": S.CONFIGS}
+    env = {"SEEDS": S.SEEDS, "SUBPROCS": list(S.SUBPROCS), "CONFIGS": S.CONFIGS, "ORIGIN": dict(S.ORIGIN)}
+    try:
+        import exo.platforms.x86 as X
+
+        env["X86"] = [getattr(X, nm) for nm in X86_POOL if hasattr(X, nm)]
+    except Exception:
+        env["X86"] = []
+    return env
 
 
 def first_proc(res):
@@ -337,7 +347,7 @@ def _one_instance(ctx: ProcCtx, p, op, opname, args, props, live, rec, env, boun
     is_eqv, ign = ignore_cfg_of(p_ir, q_ir)
     rec["reported_cfg"] = sorted(f"{a}.{b}" for a, b in ign)
     rec["tracked_eqv"] = bool(is_eqv)
-    need_run = bool(props & {"C01", "C04", "C10"})
+    need_run = bool(props & {"C01", "C04", "C10", "C05"})
     r2 = None
     if need_run and is_eqv:
         try:
@@ -350,7 +360,7 @@ def _one_instance(ctx: ProcCtx, p, op, opname, args, props, live, rec, env, boun
                 rec["c04_wf"] = check_wellformed(q_ir)[:5] or [str(ill)]
             return
     # ---- C01 / C10 --------------------------------------------------------
-    if ("C01" in props or "C10" in props) and is_eqv:
+    if (props & {"C01", "C10", "C05"}) and is_eqv:
         v = ctx.compare(q_ir, ignore_cfg=ign, r2=r2)
         rec["c01"] = v.status
         rec["c01_tier"] = v.tier
@@ -362,8 +372,41 @@ def _one_instance(ctx: ProcCtx, p, op, opname, args, props, live, rec, env, boun
             rec["c01_detail"] = v.detail
         if v.status == "differ":
             rec["c01_cex"] = cex_to_json(v.cex)
+    # ---- C10: call_eqv only substitutes a callee of the same origin ------------------
+    if "C10" in props and opname == "call_eqv":
+        try:
+            old = args[0]._impl._node.f.name
+            new = args[1].name()
+            oo, no = env["ORIGIN"].get(str(old)), env["ORIGIN"].get(str(new))
+            rec["c10_origins"] = [oo, no]
+            if oo is not None and no is not None and oo != no:
+                rec["c10_origin_mismatch"] = f"call to {old} (origin {oo}) replaced by {new} (origin {no})"
+        except Exception as ex2:
+            rec["c10_origin_err"] = repr(ex2)
+    # ---- C05: inlining the inserted call gives back an equivalent program ------------
+    if "C05" in props and opname == "replace" and is_eqv:
+        try:
+            from exo.stdlib.scheduling import inline as _inline
+
+            old_nodes = {id(c._impl._node) for c in SE.stmt_cursors(p)}
+            calls = [c for c in SE.stmt_cursors(q) if isinstance(c, PC.CallCursor) and id(c._impl._node) not in old_nodes]
+            rec["c05_new_calls"] = len(calls)
+            if calls:
+                back, exb, _ = apply_op(_inline, q, [calls[0]])
+                if back is None:
+                    rec["c05_inline"] = f"inline raised {type(exb).__name__}"
+                else:
+                    vb = ctx.compare(back._loopir_proc, ignore_cfg=ign)
+                    rec["c05_inline"] = vb.status
+                    if vb.status != "equal":
+                        rec["c05_inline_detail"] = vb.detail
+                        rec["c05_inline_src"] = str(back)
+                    if vb.cex:
+                        rec["c05_inline_cex"] = cex_to_json(vb.cex)
+        except (Unsupported, TooBig, L.IllFormed) as ex2:
+            rec["c05_inline"] = f"skipped: {ex2}"
     # ---- C04 -------------------------------------------------------------
-    if "C04" in props:
+    if "C04" in props or "C05" in props:
         probs = check_wellformed(q_ir)
         if probs:
             rec["c04_wf"] = probs[:5]
